@@ -8,6 +8,10 @@ def build(ctx):
     from props import common
     # the consuming pairs are built by the passes: no pass may bake a %hi / %lo computed before the layout is final
     common.pass_tasks(ctx, ['transform_compressible', 'transform_pseudo_instructions', 'resolve_immediates'])
+    # the pair rebuilds v only if the consuming instructions - also in the 16-bit form -c turns them into - carry the split unchanged
+    common.encoder_tasks(ctx, lambda m: m in ('lui', 'auipc', 'addi', 'lw', 'sw', 'lb', 'lbu', 'lh', 'lhu', 'sb', 'sh', 'jalr',
+                                               'c.lui', 'c.addi', 'c.li', 'c.lw', 'c.sw', 'c.lwsp', 'c.swsp', 'c.addi16sp', 'c.addi4spn',
+                                               'c.jr', 'c.jalr', 'c.mv'), parts=('legal', 'decode'))
 
 
 def bounded(ctx):
